@@ -49,6 +49,11 @@ Definition run (args : list bytes) : bytes :=
                      | Some (e, g) => out_N e ++ [32%N] ++ out_span g 1 ++ [32%N] ++ out_span g 2 ++ [32%N] ++ out_span g 3
                      end
     end
+  else if is_op "qf" op then
+    match size_of_line (nth_arg args 1) with
+    | None => lit "OTHER"
+    | Some (root, v) => root ++ [32%N] ++ out_res out_Z v
+    end
   else if is_op "rxs" op then
     match re_search size_re (nth_arg args 1) with
     | None => lit "None"
